@@ -128,6 +128,11 @@ def ask (facts : List (Q × Bool)) (q : Q) : Option Bool :=
   | some b => some b
   | none => lookup facts q
 
+/-- along every path: no literal query, and no query equal to one in `seen` or asked earlier on the path -/
+def noRepeat (seen : List Q) : Tree α → Bool
+  | .leaf _ => true
+  | .test q y n => q.static.isNone && !(seen.any fun q' => Q.beq q' q) && noRepeat (q :: seen) y && noRepeat (q :: seen) n
+
 /-- every query is asked at most once per path; literal queries are never asked -/
 def norm (facts : List (Q × Bool)) : Tree α → Tree α
   | .leaf a => .leaf a
@@ -227,6 +232,9 @@ def isForIter : Instr → Bool
   | .forIter => true
   | _ => false
 
+/-! The target of a loop is recorded in prefix notation: `2 * a` = the item (component) is stored to atom `a`, `2 * n + 1` = it is
+    unpacked into `n` components — so `for x, (y, z) in …` and `for (x, y), z in …` are different targets. -/
+
 /-- the loop a backward jump continues: number of FOR_ITERs up to and including the target -/
 def depthOf (code : List Instr) (target : Nat) : Nat := ((code.take (target + 1)).filter isForIter).length
 
@@ -292,11 +300,11 @@ def act (D : Dom α) (code : List Instr) (s : St α) : Act α :=
       | [] => stuck
     | .unpack n =>
       match s.stack with
-      | _ :: rest => .res (.next { s with pc := s.pc + 1, stack := List.replicate n D.none ++ rest })
+      | _ :: rest => .res (.next { s with pc := s.pc + 1, stack := List.replicate n D.none ++ rest, loops := storeTarget s.loops (2 * n + 1) })
       | [] => stuck
     | .store a =>
       match s.stack with
-      | _ :: rest => .res (.next { s with pc := s.pc + 1, stack := rest, loops := storeTarget s.loops a })
+      | _ :: rest => .res (.next { s with pc := s.pc + 1, stack := rest, loops := storeTarget s.loops (2 * a) })
       | [] => stuck
     | .yieldValue =>
       match s.stack, s.yielded with
